@@ -350,6 +350,11 @@ def inject(rng, t: dict, js: Any, cmap: dict, path_names: list[str]) -> tuple[An
         elif inner["k"] == "dc":
             sub = inject(rng, inner, v, cmap, path_names + [f["py"]])
             if sub:
+                if ft["k"] == "opt":
+                    # Optional[Model] is decoded as a union (try each variant): the converter reports the field that holds
+                    # the union - it is the offending field as far as the enclosing model can tell - and lists the variants
+                    # tried.  Attribution legitimately stops at that boundary, so that field's names are accepted as well.
+                    sub = (sub[0], list(sub[1]) + [f["py"], f["wire"]])
                 cands.append((f, sub))
             cands.append((f, 7))
     if not cands:
